@@ -1,4 +1,5 @@
 import Hoot.Model.Req
+import Hoot.Model.ReqParse
 
 /-! Prototype: the Flow typestate machine (post-repair semantics), response side, redirects -/
 
@@ -70,26 +71,43 @@ def tryParseResponse (slots : Nat) (input : Bytes) : Except Fault (Option (Nat Ã
     else if r.fields.any (fun f => f.1.length > 65535) then .error (.api .badHeader)
     else .ok (some (used, { version := r.version, status := r.code, fields := fieldsOf r.fields }))
 
+/-- the tail of `try_parse_partial_response`: needs version and status; reports the completed fields up
+    to the first one with an empty name or value -/
+def partialFinish (version : Option Nat) (code : Option Nat) (fields : List (Bytes' Ã— Bytes')) : Except Fault (Option RespHead) :=
+  match version with
+  | none => .ok none
+  | some v =>
+    match code with
+    | none => .ok none
+    | some c =>
+      if c < 100 then .error (.api .responseInvalidStatus)
+      else if (fields.takeWhile (fun f => !f.1.isEmpty && !f.2.isEmpty)).any (fun f => f.1.length > 65535) then .error (.api .badHeader)
+      else .ok (some { version := v, status := c, fields := fieldsOf (fields.takeWhile (fun f => !f.1.isEmpty && !f.2.isEmpty)) })
+
 /-- parser.rs try_parse_partial_response::<N> (after repairs D8, D9) -/
 def tryParsePartial (slots : Nat) (input : Bytes) : Except Fault (Option RespHead) :=
-  let finishWith (version : Option Nat) (code : Option Nat) (fields : List (Bytes' Ã— Bytes')) (isComplete : Bool) :=
-    match version with
-    | none => Except.ok none
-    | some v =>
-      match code with
-      | none => .ok none
-      | some c =>
-        if c < 100 then .error (.api .responseInvalidStatus) else
-        -- the loop stops at the first header with an empty name or value
-        let kept := fields.takeWhile (fun f => !f.1.isEmpty && !f.2.isEmpty)
-        let _ := isComplete
-        if kept.any (fun f => f.1.length > 65535) then .error (.api .badHeader)
-        else .ok (some { version := v, status := c, fields := fieldsOf kept })
   match parseResp slots input with
   | .error .tooManyHeaders => .error (.api .httpParseTooManyHeaders)
   | .error e => .error (.api (.httpParseFail e))
-  | .more s => finishWith s.version s.code s.fields false
-  | .complete r _ => finishWith (some r.version) (some r.code) r.fields true
+  | .more s => partialFinish s.version s.code s.fields
+  | .complete r _ => partialFinish (some r.version) (some r.code) r.fields
+
+structure ReqHead where
+  method : Bytes
+  version : Nat
+  fields : List Hdr
+  deriving DecidableEq, Repr
+
+/-- parser.rs try_parse_request::<N> (after repair D9); the request target is parsed and dropped -/
+def tryParseRequest (slots : Nat) (input : Bytes) : Except Fault (Option (Nat Ã— ReqHead)) :=
+  match parseReq slots input with
+  | .error .tooManyHeaders => .error (.api .httpParseTooManyHeaders)
+  | .error e => .error (.api (.httpParseFail e))
+  | .more _ => .ok none
+  | .complete r used =>
+    if !validHttpMethod r.method then .error (.api .requestInvalidMethod)
+    else if r.fields.any (fun f => f.1.length > 65535) then .error (.api .badHeader)
+    else .ok (some (used, { method := r.method, version := r.version, fields := fieldsOf r.fields }))
 
 def splitComma (b : Bytes) : List Bytes :=
   b.foldr (fun c acc => if c == 44 then [] :: acc else match acc with | [] => [[c]] | x :: xs => (c :: x) :: xs) [[]]
